@@ -70,16 +70,15 @@ def is_length_expr(e):
     return False
 
 
-def run(ctx):
+def complement_table_rules(ctx, R="R1"):
+    """the complement table against the IUPAC definition of every ambiguity code (shared with C13: reverse-strand parts of a
+    feature are read and written through complement())"""
     t = ctx.src(TYPES)
     nuc = t.cls("NucleotideSequence")
-    prot = t.cls("ProteinSequence")
-
-    # ---------------- R1 tables ---------------------------------------------
     compl = const_eval(class_assign(nuc, "compl_symbol_dict"))
     amb = const_eval(class_assign(nuc, "alphabet_amb").args[0])
     unamb = const_eval(class_assign(nuc, "alphabet_unamb").args[0])
-    ctx.ob("R1.alphabet-order", TYPES, "NucleotideSequence.alphabet_amb", str(amb),
+    ctx.ob(f"{R}.alphabet-order", TYPES, "NucleotideSequence.alphabet_amb", str(amb),
            amb[:len(unamb)] == unamb == ["A", "C", "G", "T"] and sorted(amb) == sorted(IUPAC),
            "the ambiguous alphabet must extend the unambiguous one and consist of the IUPAC codes",
            nuc.lineno)
@@ -89,11 +88,23 @@ def run(ctx):
         if sym in IUPAC:
             target = "".join(sorted(BASE_COMPL[b] for b in IUPAC[sym]))
             want = [k for k, v in IUPAC.items() if "".join(sorted(v)) == target][0]
-        ctx.ob("R1.complement-iupac", TYPES, "NucleotideSequence.compl_symbol_dict", f"{sym} -> {c}",
+        ctx.ob(f"{R}.complement-iupac", TYPES, "NucleotideSequence.compl_symbol_dict", f"{sym} -> {c}",
                c is not None and c == want,
                f"the complement of {sym} ({IUPAC.get(sym)}) is {want}, the table says {c}", nuc.lineno)
-        ctx.ob("R1.complement-involution", TYPES, "NucleotideSequence.compl_symbol_dict", f"{sym} -> {c} -> {compl.get(c)}",
+        ctx.ob(f"{R}.complement-involution", TYPES, "NucleotideSequence.compl_symbol_dict", f"{sym} -> {c} -> {compl.get(c)}",
                compl.get(c) == sym, "complementing twice must restore the symbol", nuc.lineno)
+
+
+def run(ctx):
+    t = ctx.src(TYPES)
+    nuc = t.cls("NucleotideSequence")
+    prot = t.cls("ProteinSequence")
+
+    # ---------------- R1 tables ---------------------------------------------
+    complement_table_rules(ctx, "R1")
+    amb = const_eval(class_assign(nuc, "alphabet_amb").args[0])
+    unamb = const_eval(class_assign(nuc, "alphabet_unamb").args[0])
+    compl = const_eval(class_assign(nuc, "compl_symbol_dict"))
     # the mapper is built from the table over the ambiguous alphabet, into the ambiguous alphabet
     body = ast.unparse(nuc)
     ctx.ob("R1.complement-mapper", TYPES, "NucleotideSequence", "_compl_mapper = AlphabetMapper(_compl_alphabet_unamb, alphabet_amb)",
